@@ -130,10 +130,13 @@ KNOWN_OBJECTS = {
     "None": None, "(1, 2)": (1, 2), "()": (), "int": int, "str": str, "C": C, "len": len,
     "fn_one": fn_one, "fn_two": fn_two, "Color.RED": Color.RED, "Color.BLUE": Color.BLUE,
     "frozenset({1})": frozenset({1}), "1j": 1j, "...": ...,
+    "3": 3, "4": 4, "5": 5, "6": 6, "7": 7, "8": 8, "9": 9, "'y'": "y", "(1.0, 2)": (1.0, 2), "(True, 2)": (True, 2),
 }
 KNOWN_EXPR = {"C": "valuegen.C", "fn_one": "valuegen.fn_one", "fn_two": "valuegen.fn_two",
               "Color.RED": "valuegen.Color.RED", "Color.BLUE": "valuegen.Color.BLUE"}
-UNHASHABLE_SRC = ["[1]", "[]", "{'a': 1}", "{1, 2}", "[1, [2]]", "{}", "bytearray(b'x')", "[1.0]", "[True]", "FlakyEq()"]
+UNHASHABLE_SRC = ["[1]", "[]", "{'a': 1}", "{1, 2}", "[1, [2]]", "{}", "bytearray(b'x')", "[1.0]", "[True]", "FlakyEq()",
+                  # hashable TYPE, unhashable content
+                  "([], 1)", "(1, [2])", "('a', 'b')", "(1, {})"]
 CALLABLES = {"fn_one": fn_one, "fn_two": fn_two, "len": len}
 
 # name -> (TypeVar, bound spec | None, constraint specs)
@@ -479,6 +482,9 @@ def map_expr(mapspec) -> str:
 _I, _S, _F, _N = ["typed", "int"], ["typed", "str"], ["typed", "float"], ["known", "None"]
 _T, _U = ["typevar", "T"], ["typevar", "U"]
 
+_DIGITS = [["known", str(i)] for i in range(10)]
+_BIG10 = ["union", list(_DIGITS)]
+
 CORE_POOL = [
     # Any / Never
     ["any", "explicit"], ["any", "unreachable"], ["never"],
@@ -518,6 +524,14 @@ CORE_POOL = [
     ["union", [_I, _S]], ["union", [_S, _I]], ["union", [["union", [_I, _S]], _N]],
     ["union", [["known", "1"], ["known", "'x'"]]], ["union", [_T, _I]], ["union", [["known_u", "[1]", "a"], _S]],
     ["union", [["annotated", ["union", [_I, _N]], [["deprecated", "old"]]], _S]],
+    # unions of >= 10 members: MultiValuedValue switches to an index of its literal members
+    _BIG10, ["union", _DIGITS[:9] + [["known", "True"]]], ["union", [["known", "1"], ["known", "True"]] + _DIGITS[2:10]],
+    ["union", _DIGITS[:9] + [["generic", "list", [_I]]]], ["union", _DIGITS[:9] + [["seq", "tuple", [[True, _I]]]]],
+    ["union", _DIGITS[:9] + [["known_u", "[1]", "a"]]], ["union", _DIGITS[:9] + [_S, _T]],
+    ["union", _DIGITS[:9] + [["typeddict", {"a": [_I, True, False]}, None, False]]],
+    # literals of a hashable type with unhashable / type-differing content
+    ["known_u", "([], 1)", "a"], ["known_u", "('a', 'b')", "a"], ["known", "(1.0, 2)"], ["known", "(True, 2)"],
+    ["known", "0"], ["known", "9"],
 ]
 
 CORE_MAPS = [
